@@ -243,7 +243,7 @@ def generate(rng, tier, profile='default'):
     elif r < p_fault + p_alias + p_churn:
       # many short-lived sibling objects: evictions of bounded caches, reuse
       # of object ids
-      ops.append({'op': 'churn', 'n': rng.choice((40, 130, 140, 300)),
+      ops.append({'op': 'churn', 'n': rng.choice((40, 130, 140, 260)),
                   's': rng.randrange(len(series))})
     elif r < p_fault + p_alias + p_churn + p_snap and len(objs) < 4:
       new = max(objs) + 1
